@@ -122,6 +122,11 @@ def replaceTop (adv : Bool) (top : Helper) (rest : List Helper) (ne : NoExp) (fr
   | .eop t r n => .cont (eopState t r n frames)
   | .ok t r n => .cont ⟨{ t with toks := t.toks.set t.pos (some x), pos := t.pos + 1 } :: r, n, frames, none⟩
 
+/-- the text of a token as the argument collection and the `(` test after a function-like macro name see it: only punctuators
+    and operators delimit (`isinstance(tok, (Punctuator, Operator)) and tok.token == …`, repair of finding D44); the content of
+    a string or character literal spelled `,` `(` `)` does not -/
+def dtext (t : Tok) : String := if t.kind == .punct || t.kind == .op then t.text else ""
+
 inductive Collected
   | ok (args : List (List Tok)) (top : Helper) (rest : List Helper) (ne : NoExp)
   | eop (top : Helper) (rest : List Helper) (ne : NoExp)
@@ -135,9 +140,9 @@ def collectArgs (adv : Bool) : Nat → Helper → List Helper → NoExp → List
     | .eop t r n => .eop t r n
     | .bad e => .bad e
     | .ok tok top' rest' ne' =>
-      if tok.text == "," && depth == 1 then collectArgs adv f top' rest' ne' (args ++ [cur]) [] depth
-      else if tok.text == "(" then collectArgs adv f top' rest' ne' args (cur ++ [tok]) (depth + 1)
-      else if tok.text == ")" then
+      if dtext tok == "," && depth == 1 then collectArgs adv f top' rest' ne' (args ++ [cur]) [] depth
+      else if dtext tok == "(" then collectArgs adv f top' rest' ne' args (cur ++ [tok]) (depth + 1)
+      else if dtext tok == ")" then
         if depth == 1 then .ok (args ++ [cur]) top' rest' ne'
         else collectArgs adv f top' rest' ne' args (cur ++ [tok]) (depth - 1)
       else collectArgs adv f top' rest' ne' args (cur ++ [tok]) depth
@@ -305,7 +310,7 @@ def stepDefined (adv : Bool) (tbl : Table) (s : MS) (top' : Helper) (rest : List
 /-- the name `t` of the function-like macro `m` is at the read position of `top` -/
 def stepCall (c : Cfg) (s : MS) (top : Helper) (rest : List Helper) (t : Tok) (m : Macro) : Out :=
   let top' : Helper := { top with toks := top.toks.set top.pos none, pos := top.pos + 1 }
-  if (peekDown (top' :: rest)).map (·.text) != some "(" then
+  if (peekDown (top' :: rest)).map dtext != some "(" then
     .cont ⟨{ top with pos := top.pos + 1 } :: rest, s.noExp, s.frames, none⟩
   else
     match consume c.adv top' rest s.noExp with
